@@ -436,8 +436,28 @@ func (s torn) Run(c *Ctx, i int) {
 		}
 		return
 	}
-	// (1) truncation at every byte offset
+	// (1) truncation at every byte offset (documents above 1500 bytes: 600 sampled offsets — every cut costs a
+	// traversal of the whole prefix, twice, so the exhaustive form grows with the square of the length)
+	take := map[int]bool{}
+	if len(data) > 1500 {
+		tr := r.Fork()
+		for j := 0; j < 560; j++ {
+			take[1+tr.Intn(len(data)-1)] = true
+		}
+		for _, k := range interesting(data, doc.Out.Map) {
+			if len(take) < 600 {
+				take[k] = true
+			}
+		}
+		for _, k := range []int{1, 2, 3, 4, 5, len(data) - 2, len(data) - 1, 4095, 4096, 4097} {
+			take[k] = true
+		}
+		c.Count("docs.large(truncation offsets sampled)", 1)
+	}
 	for k := 1; k < len(data); k++ {
+		if len(take) > 0 && !take[k] {
+			continue
+		}
 		var cls string
 		if isText {
 			cls = truncClassText(doc.Out, k)
@@ -462,6 +482,18 @@ func (s torn) Run(c *Ctx, i int) {
 		edits = textEdits(doc.Out, r.Fork())
 	} else {
 		edits = binEdits(doc.Out, r.Fork())
+	}
+	if len(edits) > 400 && len(data) > 1500 {
+		// a long document with thousands of sites: a seeded sample of 400 edits (the cost of one edit is a traversal of
+		// the whole document, twice)
+		er := r.Fork()
+		perm := er.Perm(len(edits))
+		sample := make([]edit, 0, 400)
+		for _, j := range perm[:400] {
+			sample = append(sample, edits[j])
+		}
+		edits = sample
+		c.Count("docs.large(catalogue edits sampled)", 1)
 	}
 	for _, ed := range edits {
 		b := applyEdit(data, ed)
